@@ -51,8 +51,11 @@ func genCase(r *rand.Rand, size int) scase {
 	c := scase{Shape: shape, Out: "-"}
 	if r.Intn(3) == 0 {
 		c.Out = "u=" + strconv.Itoa(r.Intn(3))
-		if r.Intn(3) == 0 {
+		switch r.Intn(4) {
+		case 0:
 			c.Out += "+v=1"
+		case 1:
+			c.Out += "+u=" + strconv.Itoa(3+r.Intn(2)) // a second value of the same key
 		}
 	}
 	var srv, cli []string
@@ -280,5 +283,6 @@ func basicCases() []scase {
 		{"bidi", "-", "Ha=1,Tb=1", "E5:e0", "r,h,t"},
 		{"bidi", "-", "R,W", "OK", "s1,x,r"},
 		{"bidi", "-", "R,R", "OK", "s1,d,r"},
+		{"bidi", "u=1+u=2", "Ha=1,R,W", "OK", "s1,x,r"},
 	}
 }
